@@ -320,7 +320,7 @@ impl SPDC {
   pub fn assign_poling_period(&mut self, period: PolingPeriod) -> &mut Self {
     let sign = PeriodicPoling::compute_sign(&self.signal, &self.pump, &self.crystal_setup);
     use dim::Abs;
-    self.pp.assign_period(sign * period.abs());
+    self.pp = std::mem::take(&mut self.pp).with_period(sign * period.abs());
     self
   }
 
